@@ -765,7 +765,8 @@ fn expand_home(tokens: &mut types::Tokens) {
         }
 
         let mut s: String = text.clone();
-        let ptn = r"^~(?P<tail>.*)";
+        // only `~` and `~/...`: `~name` is not the current user's home
+        let ptn = r"^~(?P<tail>/.*)?$";
         let re = Regex::new(ptn).expect("invalid re ptn");
         let home = tools::get_user_home();
         let ss = s.clone();
